@@ -10,6 +10,7 @@ import (
 type mixW struct {
 	write, ingest, ingestExcise, excise, flush, compact, scan, reopen, wait int
 	snap, iter, ibatch, efos, ratchet, checkpoint, scanInternal, metrics    int
+	crash                                                                   int // main-line crashes (at most 3 per plan)
 	rangeKeys, masking                                                      bool
 	iterOpsPerStep                                                          int
 	longLived                                                               bool // keep iterators and snapshots open for long
@@ -110,7 +111,8 @@ func (g *gen) genMixed(nops int, w mixW) {
 	}
 	cats := []cat{{"write", w.write}, {"ingest", w.ingest}, {"ingestexcise", w.ingestExcise}, {"excise", w.excise}, {"flush", w.flush},
 		{"compact", w.compact}, {"scan", w.scan}, {"reopen", w.reopen}, {"wait", w.wait}, {"snap", w.snap}, {"iter", w.iter}, {"ibatch", w.ibatch},
-		{"efos", w.efos}, {"ratchet", w.ratchet}, {"checkpoint", w.checkpoint}, {"scaninternal", w.scanInternal}, {"metrics", w.metrics}}
+		{"efos", w.efos}, {"ratchet", w.ratchet}, {"checkpoint", w.checkpoint}, {"scaninternal", w.scanInternal}, {"metrics", w.metrics}, {"crash", w.crash}}
+	ncrash := 0
 	total := 0
 	for _, c := range cats {
 		total += c.w
@@ -149,6 +151,17 @@ func (g *gen) genMixed(nops int, w mixW) {
 			g.add(DBOp{K: "scan"})
 		case "reopen":
 			g.add(DBOp{K: "reopen"})
+			g.snaps, g.iters, batches = nil, nil, nil
+		case "crash":
+			if ncrash >= 3 {
+				continue
+			}
+			ncrash++
+			if g.r.IntN(2) == 0 {
+				g.add(DBOp{K: "crashnow", Surv: g.survival()})
+			} else {
+				g.add(DBOp{K: "crashat", N: g.r.IntN(40), Surv: g.survival()})
+			}
 			g.snaps, g.iters, batches = nil, nil, nil
 		case "wait":
 			g.add(DBOp{K: "wait", N: 1 + g.r.IntN(2000)})
